@@ -1,8 +1,9 @@
 """C06 - pixel transforms follow the DICOM pipeline and the tri-state flags.
 
 Implementation driven (real code from $VERIF_REPO/src):
-  hd.Image.from_dataset(...).get_frame / get_frames  (image.py _CombinedPixelTransform
-  __init__ + __call__), hd.LUT / VOILUT / ModalityLUT objects (lut_data, apply,
+  hd.Image.from_dataset(...).get_frame / get_frames / get_volume / get_total_pixel_matrix and
+  hd.get_volume_from_series  (image.py _CombinedPixelTransform __init__ + __call__, the
+  applies_to_all_frames reuse in get_frames / _get_pixels_by_frame), hd.LUT / VOILUT / ModalityLUT objects (lut_data, apply,
   get_scaled_lut_data, get_inverted_lut_data, descriptor), VOILUTTransformation.apply,
   pm.RealWorldValueMapping.apply, pixels.apply_voi_window.
 Model: coq/theories/C06_Model.v; theorems: C06_Props.v.
@@ -34,19 +35,24 @@ ORACLE_PREMISES = [
     'outside the property and not modelled',
 ]
 MODELLED = ('image.py _CombinedPixelTransform.__init__ (flag gate, discovery root/shared/per-frame, selectors, '
-            'folding, dtype checks) and __call__; pixels.py selectors, apply_voi_window, apply_lut, '
+            'folding, dtype checks, applies_to_all_frames) and __call__; get_frames / _get_pixels_by_frame (get_volume, '
+            'get_total_pixel_matrix) transform reuse; get_volume_from_series; pixels.py selectors, apply_voi_window, apply_lut, '
             '_check_rescale_dtype, palette LUT parsing; content.py LUT (descriptor, lut_data, scaled, inverted, '
             'apply), VOILUTTransformation.apply; pm/content.py RealWorldValueMapping.apply')
-STRATA = ['mono', 'mono_mf', 'flags', 'palette', 'lut', 'lut_big', 'lut_err', 'voi_apply', 'rwvm_apply',
+STRATA = ['mono', 'mono_mf', 'mono_vol', 'series', 'tpm', 'flags', 'palette', 'lut', 'lut_big', 'lut_err', 'voi_apply', 'rwvm_apply',
           'window', 'malformed']
 NOT_EXECUTED = ['ICC colour management (no ICC profile in the synthetic images; out of the property)',
                 'segmented palette colour LUTs (the code raises RuntimeError: not implemented)',
-                'get_volume / get_total_pixel_matrix / get_volume_from_series (they share '
-                '_CombinedPixelTransform; only get_frame and get_frames are driven)']
+                'slice / row / column sub-ranges of get_volume and get_total_pixel_matrix (whole stacks and whole '
+                'matrices are driven; the spatial arguments belong to C03 / C08 / C11)',
+                'non-uniform per-frame functional groups (open finding E2, switch C06_NONUNIFORM=1)']
 RULE = ('mono: single-frame images, random modality (rescale integer / dyadic / LUT 8,16 bit), VOI (1-3 windows with '
         'LINEAR / LINEAR_EXACT / SIGMOID, explanations; VOI LUTs), MONOCHROME1/2 + PresentationLUTShape, RWVM linear / '
         'LUT selected by index, label, unit; random tri-state flags, output range, dtype. mono_mf: the same with '
-        'parameters shared or per-frame, get_frame(i) and get_frames. flags: all 3^5 x 2 flag vectors on fixed '
+        'parameters shared or per-frame, get_frame(i) and get_frames (all / subset / reversed / repeated frames). '
+        'mono_vol: get_volume of a multi-frame stack with shuffled slice positions. series: get_volume_from_series over '
+        '2-3 single-frame images (optionally different rescale per slice). tpm: get_total_pixel_matrix of a tiled 8-bit '
+        'monochrome image, parameters in the shared group. flags: all 3^5 x 2 flag vectors on fixed '
         'datasets. palette: 8/16-bit tables, odd/even lengths, any first value. lut*: LUT objects incl. 65536 entries '
         'and padded 8-bit tables. malformed: each guard violated. non-trivial = at least 2 distinct output values or '
         'a rejection; distinct by case hash')
@@ -54,6 +60,7 @@ EXHAUSTIVE = {'quick': False, 'thorough': False}
 
 TRI = [True, False, None]
 FN = ['LINEAR', 'LINEAR_EXACT', 'SIGMOID']
+MONO_KINDS = ('mono', 'mono_mf', 'flags', 'malformed', 'mono_vol', 'series', 'tpm')
 DTYPES = ['float64', 'float64', 'float64', 'float32', 'int16', 'uint16', 'int32', 'uint8', 'int64']
 
 
@@ -345,6 +352,77 @@ def _mono_case(rng, multi):
     return c
 
 
+def _more_frames(rng, c, n):
+    """n frames in the value range of the case's first frame"""
+    base = c['frames'][0]
+    out = [list(base)]
+    while len(out) < n:
+        fr = list(base)
+        rng.shuffle(fr)
+        fr[rng.randrange(len(fr))] = rng.choice(base)
+        out.append(fr)
+    return out
+
+
+def _vol_case(rng):
+    """get_volume on a multi-frame stack: frames at shuffled, regularly spaced positions"""
+    c = _mono_case(rng, True)
+    n = len(c['frames'])
+    zs = [2.5 * i for i in range(n)]
+    rng.shuffle(zs)
+    c.update(kind='mono_vol', api='get_volume', zs=zs)
+    c.pop('prior', None)
+    return c
+
+
+def _series_case(rng):
+    """get_volume_from_series: 2-3 single-frame images; the slices may carry different rescales"""
+    c = _mono_case(rng, False)
+    n = rng.choice([2, 3])
+    c['frames'] = _more_frames(rng, c, n)
+    zs = [5.0 * i for i in range(n)]
+    rng.shuffle(zs)
+    roots = [dict(c['root']) for _ in range(n)]
+    if c['root']['slope'] is not None and c['root']['icpt'] is not None and rng.random() < 0.4:
+        for r in roots[1:]:
+            r['icpt'] = str(F(c['root']['icpt']) + rng.choice([1, -2, 5]))
+    c.update(kind='series', api='series', zs=zs, slice_roots=roots)
+    c.pop('prior', None)
+    return c
+
+
+def _tpm_case(rng):
+    """get_total_pixel_matrix of a tiled 8-bit monochrome image, parameters in the shared group"""
+    while True:
+        c = _mono_case(rng, False)
+        if not c['signed'] and c['alloc'] == 8 and c['modlut'] is None:
+            break
+    grid = rng.choice([(1, 2), (2, 1), (2, 2)])
+    c['frames'] = _more_frames(rng, c, grid[0] * grid[1])
+    c.update(kind='tpm', api='tpm', grid=list(grid), shared=c['root'], root=_empty_level())
+    c.pop('prior', None)
+    return c
+
+
+# OPEN finding E2 (reported): get_frames / _get_pixels_by_frame reuse the first frame's transform when
+# nothing of that frame was found in its per-frame group, so a later frame's own per-frame parameters are
+# ignored.  The model mirrors the code; the oracle flags it.  Generators draw uniform per-frame groups
+# (what the standard demands) unless this switch is on; repro: corpus/C06/pending/e2_nonuniform_get_frames.json
+NONUNIFORM_PER_FRAME = os.environ.get('C06_NONUNIFORM', '') == '1'
+
+
+def _make_nonuniform(rng, c):
+    """drop one kind of parameter from ONE per-frame group (the other frames keep theirs)"""
+    pf = c['perframe']
+    for key in rng.sample(['win', 'rwvm', 'rescale'], 3):
+        keys = ('slope', 'icpt') if key == 'rescale' else (key,)
+        if all(any(lv[k] is not None for k in keys) for lv in pf):
+            lv = pf[rng.randrange(len(pf))]
+            for k in keys:
+                lv[k] = None
+            return
+
+
 FLAG_BASES = None
 
 
@@ -404,8 +482,6 @@ def _lut_cases(rng, n):
             data[0] = (data[0] + 1) % (top + 1)
         first = rng.choice([0, 1, 5, 65535, rng.randint(0, 65535)])
         op = rng.choice(['roundtrip', 'roundtrip_file', 'apply', 'scaled', 'inverted'])
-        if op == 'roundtrip_file' and bits == 8 and L == 1:
-            op = 'roundtrip'      # pydicom cannot pack a one-byte LUTData (VR US): not writable at all
         c = {'kind': 'lut', 'op': op, 'first': first, 'data': data, 'bits': bits}
         if op == 'apply':
             c['xs'] = [first - 2, first - 1, first, first + 1, first + L - 2, first + L - 1, first + L, first + L + 5,
@@ -436,10 +512,26 @@ def _gen_data(c):
 def gen_cases(rng, tier):
     n = {'quick': 1, 'thorough': 12, 'search': 5}[tier]
     cases = []
-    for _ in range(260 * n):
+    for _ in range(230 * n):
         cases.append(_mono_case(rng, False))
-    for _ in range(140 * n):
-        cases.append(_mono_case(rng, True))
+    for _ in range(110 * n):
+        c = _mono_case(rng, True)
+        if c['api'] == 'get_frames' and rng.random() < 0.5:
+            # a subset / another order of the frames (the shared transform is built from the first one asked for)
+            k = len(c['frames'])
+            c['fis'] = rng.choice([[k - 1], list(range(k - 1, -1, -1)), [k - 1, 0], [1, 1], [0]])
+        if NONUNIFORM_PER_FRAME and rng.random() < 0.3:
+            _make_nonuniform(rng, c)
+        cases.append(c)
+    for _ in range(36 * n):
+        c = _vol_case(rng)
+        if NONUNIFORM_PER_FRAME and rng.random() < 0.3:
+            _make_nonuniform(rng, c)
+        cases.append(c)
+    for _ in range(30 * n):
+        cases.append(_series_case(rng))
+    for _ in range(24 * n):
+        cases.append(_tpm_case(rng))
     # all flag vectors on the fixed datasets (quick: every vector on one of them, round-robin)
     vecs = list(itertools.product(TRI, TRI, TRI, [True, False], TRI, TRI))
     bases = _flag_bases()
@@ -660,12 +752,96 @@ def _build_image(c):
             _fill_level(it, lv, True)
             pf.append(it)
         ds.PerFrameFunctionalGroupsSequence = pf
+        if c.get('zs'):
+            # regularly spaced stack (frame i at z = zs[i]) so that get_volume applies
+            for kw in ('ImagePositionPatient', 'ImageOrientationPatient', 'PixelSpacing', 'SliceThickness',
+                       'SliceLocation', 'SpacingBetweenSlices'):
+                if kw in ds:
+                    delattr(ds, kw)
+            pm = Dataset()
+            pm.PixelSpacing = [1.0, 1.0]
+            pm.SliceThickness = 1.0
+            sh.PixelMeasuresSequence = [pm]
+            po = Dataset()
+            po.ImageOrientationPatient = [1.0, 0.0, 0.0, 0.0, 1.0, 0.0]
+            sh.PlaneOrientationSequence = [po]
+            for it, z in zip(pf, c['zs']):
+                pp = Dataset()
+                pp.ImagePositionPatient = [0.0, 0.0, float(z)]
+                it.PlanePositionSequence = [pp]
     _fill_level(ds, c['root'], False)
     if c['modlut'] is not None:
         ds.ModalityLUTSequence = [_mk_lut_obj(c['modlut'], 'ModalityLUT')]
     if c['voiluts'] is not None:
         ds.VOILUTSequence = [_mk_lut_obj(l, 'VOILUT') for l in c['voiluts']]
     return hd.Image.from_dataset(ds), px
+
+
+def _slice_case(c, i):
+    """the single-frame image of slice i of a 'series' case"""
+    return dict(c, frames=[c['frames'][i]], root=c['slice_roots'][i], perframe=None, shared=None, fi=0)
+
+
+def _build_series(c):
+    """single-frame datasets of one series (slice i at z = zs[i]), in the order of c['frames']"""
+    import synth
+    s_uid, f_uid = synth.uid(), synth.uid()
+    out = []
+    for i in range(len(c['frames'])):
+        im, _ = _build_image(_slice_case(c, i))
+        im.SOPInstanceUID = synth.uid()
+        im.SeriesInstanceUID = s_uid
+        im.FrameOfReferenceUID = f_uid
+        im.ImagePositionPatient = [0.0, 0.0, float(c['zs'][i])]
+        im.ImageOrientationPatient = [1.0, 0.0, 0.0, 0.0, 1.0, 0.0]
+        im.PixelSpacing = [1.0, 1.0]
+        for kw in ('SpacingBetweenSlices', 'SliceLocation'):
+            if kw in im:
+                delattr(im, kw)
+        out.append(im)
+    return out
+
+
+def _build_tpm(c):
+    """tiled monochrome slide image (TILED_FULL, 8 bit): tile k = c['frames'][k], parameters in the
+    shared functional group; no ICC profile"""
+    import numpy as np
+    import highdicom as hd
+    import synth
+    th, tw = c['rows'], c['cols']
+    nr, nc = c['grid']
+    tiles = np.array(c['frames'], dtype=np.uint8).reshape(nr, nc, th, tw)
+    tpm = tiles.transpose(0, 2, 1, 3).reshape(nr * th, nc * tw)
+    ds = synth.sm_tiled(nr * th, nc * tw, th, tw, samples=1, pixels=tpm)
+    ds.BitsStored, ds.HighBit = c['stored'], c['stored'] - 1
+    ds.PhotometricInterpretation = 'MONOCHROME1' if c['mono1'] else 'MONOCHROME2'
+    if c['pls']:
+        ds.PresentationLUTShape = c['pls']
+    for it in ds.OpticalPathSequence:
+        if 'ICCProfile' in it:
+            del it.ICCProfile
+    if 'ICCProfile' in ds:
+        del ds.ICCProfile
+    _fill_level(ds.SharedFunctionalGroupsSequence[0], c['shared'], True)
+    if c['voiluts'] is not None:
+        ds.VOILUTSequence = [_mk_lut_obj(l, 'VOILUT') for l in c['voiluts']]
+    return hd.Image.from_dataset(ds)
+
+
+def _vol_order(c):
+    """frame indices in the slice order of the volume (orientation (1,0,0,0,1,0): decreasing z)"""
+    return sorted(range(len(c['zs'])), key=lambda i: -c['zs'][i])
+
+
+def _fis(c):
+    """zero-based frame indices, in output order, of a several-frames call"""
+    if c['api'] == 'get_frames':
+        return c['fis'] if c.get('fis') is not None else list(range(len(c['frames'])))
+    if c['api'] in ('get_volume', 'series'):
+        return _vol_order(c)
+    if c['api'] == 'tpm':
+        return list(range(len(c['frames'])))
+    raise ValueError(c['api'])
 
 
 def _sel_arg(s, voi):
@@ -693,6 +869,35 @@ def _flag_kw(c):
     return dict(apply_real_world_transform=fl['rwvm'], apply_modality_transform=fl['mod'],
                 apply_voi_transform=fl['voi'], apply_presentation_lut=fl['pres'],
                 apply_palette_color_lut=fl['pal'], apply_icc_profile=fl['icc'])
+
+
+def _call_kw(c):
+    import numpy as np
+    kw = _flag_kw(c)
+    kw.update(dtype=np.dtype(c['dtype']), real_world_value_map_selector=_sel_arg(c['rsel'], False),
+              voi_transform_selector=_sel_arg(c['vsel'], True),
+              voi_output_range=(float(F(c['yrange'][0])), float(F(c['yrange'][1]))))
+    return kw
+
+
+def _canon_frames(out, c):
+    """several frames: float32 runs are only observed as 'ok' as a whole"""
+    if c['dtype'] == 'float32':
+        return 'ok'
+    return [_canon(out[i], c['dtype']) for i in range(out.shape[0])]
+
+
+def _check_slice_order(vol, c):
+    """slice k of the returned volume must sit where frame _vol_order(c)[k] is (read off the
+    volume's own affine)"""
+    order = _vol_order(c)
+    if vol.array.shape[0] != len(order):
+        return f'{vol.array.shape[0]} slices for {len(order)} frames'
+    for k, i in enumerate(order):
+        z = float(vol.affine[2, 3] + k * vol.affine[2, 0])
+        if abs(z - c['zs'][i]) > 1e-6:
+            return f'slice {k} at z={z}, expected frame {i} at z={c["zs"][i]}'
+    return None
 
 
 def _canon(arr, dtype):
@@ -747,7 +952,7 @@ def run_impl(c):
     warnings.filterwarnings('ignore')
     import highdicom as hd
     k = c['kind']
-    if k in ('mono', 'mono_mf', 'flags', 'malformed'):
+    if k in MONO_KINDS:
         def f():
             im, px = _build_image(c)
             kw = _flag_kw(c)
@@ -779,9 +984,35 @@ def run_impl(c):
                 except Exception:      # noqa  (the earlier call is not under test)
                     pass
             if c['api'] == 'get_frames':
-                out = im.get_frames(**kw)
-                return [_canon(out[i], c['dtype']) for i in range(out.shape[0])]
+                if c.get('fis') is not None:
+                    out = im.get_frames([i + 1 for i in c['fis']], **kw)
+                else:
+                    out = im.get_frames(**kw)
+                return _canon_frames(out, c)
+            if c['api'] == 'get_volume':
+                vol = im.get_volume(**kw)
+                bad = _check_slice_order(vol, c)
+                if bad:
+                    return Err('SliceOrder: ' + bad)
+                return _canon_frames(vol.array, c)
             return _canon(im.get_frame(c['fi'] + 1, **kw), c['dtype'])
+        if c['api'] == 'series':
+            def f():     # noqa
+                kw = _call_kw(c)
+                vol = hd.get_volume_from_series(_build_series(c), **kw)
+                bad = _check_slice_order(vol, c)
+                if bad:
+                    return Err('SliceOrder: ' + bad)
+                return _canon_frames(vol.array, c)
+        if c['api'] == 'tpm':
+            def f():     # noqa
+                kw = _call_kw(c)
+                im = _build_tpm(c)
+                out = im.get_total_pixel_matrix(**kw)
+                nr, nc = c['grid']
+                th, tw = c['rows'], c['cols']
+                tiles = out.reshape(nr, th, nc, tw).transpose(0, 2, 1, 3).reshape(nr * nc, th, tw)
+                return _canon_frames(tiles, c)
         return catch(f)
     if k == 'palette':
         def f():
@@ -971,8 +1202,10 @@ def _lutds(l, pad=False):
     """LutDS as hd.LUT(...) creates it in memory"""
     n = len(l['data'])
     bytes_ = list(l['data']) if l['bits'] == 8 else [y for v in l['data'] for y in (v % 256, v // 256)]
+    if len(bytes_) % 2:
+        bytes_.append(0)       # LUT.__init__ pads odd 8-bit tables (OW: even length)
     return (f"(LutDS {0 if n == 65536 else n} {zlit(l['first'])} {l['bits']} {zl(bytes_)} "
-            f"{_opt(l.get('expl'), coq_string)})")
+            f"{_opt(l.get('expl'), coq_string)} false)")
 
 
 def _rwvm(r):
@@ -1046,7 +1279,7 @@ def _sigmoid_keys_mono(c):
     """every exp argument the folded transform can need: all (window alternative, rescale
     alternative, inversion) combinations x all values the window may be applied to."""
     wins = []
-    lvls = [c['root']] + ([c['shared']] if c['shared'] else []) + (c['perframe'] or [])
+    lvls = [c['root']] + ([c['shared']] if c['shared'] else []) + (c['perframe'] or []) + (c.get('slice_roots') or [])
     for lv in lvls:
         if lv['win'] is not None and lv['win']['fn'] == 'SIGMOID':
             w = lv['win']
@@ -1078,15 +1311,21 @@ def _sigmoid_keys_mono(c):
 
 def coq_term(c):
     k = c['kind']
-    if k in ('mono', 'mono_mf', 'flags', 'malformed'):
+    if k in MONO_KINDS:
         tab = _exp_tab(_sigmoid_keys_mono(c))
         frames = '[' + '; '.join(zl(f) for f in c['frames']) + ']'
         args = (f"{tab} {_dataset_term(c)} {_flags_term(c['flags'])} {_sel_term(c['rsel'])} {_sel_term(c['vsel'])} "
                 f"{qlit(F(c['yrange'][0]))} {qlit(F(c['yrange'][1]))} {_dtype_term(c['dtype'])} {frames}")
-        fn = 'run_get_frame_status' if c['dtype'] == 'float32' else 'run_get_frame'
+        st = '_status' if c['dtype'] == 'float32' else ''
         if c['api'] == 'get_frames':
-            return f"(run_all_frames (fun fi => {fn} {args} fi) {len(c['frames'])})"
-        return f"({fn} {args} {c['fi']})"
+            return f"(run_get_frames{st} {args} {zl(_fis(c))})"
+        if c['api'] in ('get_volume', 'tpm'):
+            return f"(run_pixels_by_frame{st} {args} {zl(_fis(c))})"
+        if c['api'] == 'series':
+            sl = '[' + '; '.join(f"({_dataset_term(_slice_case(c, i))}, {zl(c['frames'][i])})" for i in _fis(c)) + ']'
+            return (f"(run_series{st} {tab} {_flags_term(c['flags'])} {_sel_term(c['rsel'])} {_sel_term(c['vsel'])} "
+                    f"{qlit(F(c['yrange'][0]))} {qlit(F(c['yrange'][1]))} {_dtype_term(c['dtype'])} {sl})")
+        return f"(run_get_frame{st} {args} {c['fi']})"
     if k == 'palette':
         desc, chans = _palette_raw(c)
         ds = (f"(DS Palette false None false false {c['alloc']} (DT KU {c['alloc']}) None None "
@@ -1416,18 +1655,32 @@ def oracle(c, out):
 def _oracle(c, out):
     import numpy as np
     k = c['kind']
-    if k in ('mono', 'mono_mf', 'flags', 'malformed'):
-        if c['api'] == 'get_frames':
+    if k in MONO_KINDS:
+        if c['api'] != 'get_frame':
+            # several frames in one call: frame k of the output is frame fis[k] of the image
+            fis = _fis(c)
+            sub = (lambda i: (_slice_case(c, i), 0)) if c['api'] == 'series' else (lambda i: (c, i))
             if isinstance(out, Err):
+                if out.kind.startswith('SliceOrder'):
+                    return f'slices out of order: {out!r}'
                 # a rejection of the whole call is right iff some frame must be rejected
-                exps = [_expected_mono(c, i) for i in range(len(c['frames']))]
+                # (_get_pixels_by_frame also builds a transform for frame 0 whatever is requested)
+                idx = list(fis) + ([0] if c['api'] in ('get_volume', 'tpm') else [])
+                if not idx:
+                    return None
+                exps = [_expected_mono(*sub(i)) for i in idx]
                 if any(e[0] in ('err', 'any') for e in exps) or not c['dtype'].startswith('float64'):
                     return None
-                return f'get_frames refused with {out}, every frame is valid'
-            for i in range(len(c['frames'])):
-                m = _oracle_mono_frame(c, i, out[i])
+                return f'{c["api"]} refused with {out}, every frame is valid'
+            if out == 'ok':
+                return None
+            if len(out) != len(fis):
+                return f'{len(out)} frames returned for {len(fis)} requested'
+            for k, i in enumerate(fis):
+                cc, j = sub(i)
+                m = _oracle_mono_frame(cc, j, out[k])
                 if m:
-                    return f'frame {i}: {m}'
+                    return f'frame {i} (output position {k}): {m}'
             return None
         if c['dtype'] == 'float32' and not isinstance(out, Err):
             # values of float32 runs are checked here (the model only sees 'ok')
@@ -1612,7 +1865,7 @@ def nontrivial(c, out):
 
 def shrink(c):
     k = c['kind']
-    if k in ('mono', 'mono_mf', 'flags', 'malformed'):
+    if k in MONO_KINDS:
         if c['dtype'] != 'float64':
             yield dict(c, dtype='float64')
         if c['api'] == 'get_frames':
